@@ -423,18 +423,64 @@ def main():
     # several 10^5 cases and must stay small in memory.
     kinds = {}
 
-    def failure_specs(sessions):
-        """every single failure point of every session: one (calls, plan) per operation the failure-free
-        run of the real code attempts"""
-        specs = []
-        for i in range(0, len(sessions), 50000):
-            part = sessions[i:i + 50000]
-            outs = ck.run_impl(binary, [mk(s).line for s in part], jobs=8)
-            for calls, o in zip(part, outs):
+    def split_family(flat):
+        outs, cur = [], []
+        for x in flat:
+            if x == -9:
+                outs.append(cur)
+                cur = []
+            else:
+                cur.append(x)
+        return outs
+
+    def families(sessions, family, keep=None):
+        """Each session failure-free and with every single failure point.  Implementation: the failure
+        points are the operations the failure-free run of the real code attempts (counted by the fakes).
+        Model: ONE term per session (cam_family) that enumerates the failure points from the model's own
+        operation counts; the two enumerations must agree (a different count is a disagreement)."""
+        nfail = 0
+        for i in range(0, len(sessions), 8000):
+            part = sessions[i:i + 8000]
+            base_cases = [mk(s) for s in part]
+            base_out = ck.run_impl(binary, [c.line for c in base_cases], jobs=8)
+            per_session = []
+            for calls, c0, o in zip(part, base_cases, base_out):
+                cs = [c0]
                 rs = parse(o, len(calls)) if o else None
                 for ci, r in enumerate(rs or []):
-                    specs.extend((calls, ((ci, oi),)) for oi in range(r["nops"]))
-        return specs
+                    cs.extend(mk(calls, [(ci, oi)]) for oi in range(r["nops"]))
+                if keep is not None:
+                    cs = [cs[0]] + [c for c in cs[1:] if keep()]
+                per_session.append(cs)
+            flat_cases = [c for cs in per_session for c in cs[1:]]
+            flat_impl = ck.run_impl(binary, [c.line for c in flat_cases], jobs=16)
+            if keep is None:
+                fam = ck.run_model_terms(["Camera"], ["cam_family true %s" % zlist(s) for s in part], per_eval=100)
+            cases, impl, model, k = [], [], [], 0
+            for j, cs in enumerate(per_session):
+                outs = [base_out[j]] + flat_impl[k:k + len(cs) - 1]
+                k += len(cs) - 1
+                if keep is None:
+                    m = split_family(fam[j])
+                    if len(m) != len(cs):       # the model attempts a different number of operations
+                        m = (m + [None] * len(cs))[:len(cs)]
+                else:
+                    m = None
+                cases += cs
+                impl += outs
+                model += m if m is not None else []
+            if keep is not None:
+                model = ck.run_model_terms(["Camera"], [c.term for c in cases], per_eval=400)
+            nfail += len(cases) - len(part)
+            ck.compare(cases, impl, model, predicate, nontrivial, family=family)
+            count_kinds(cases, impl)
+        return nfail
+
+    def count_kinds(cases, impl):
+        for c, o in zip(cases, impl):
+            rs = parse(o, len(c.meta["calls"])) if o else None
+            for r in rs or []:
+                kinds[r["res"]] = kinds.get(r["res"], 0) + 1
 
     def process(specs, family):
         seen = set()
@@ -448,18 +494,12 @@ def main():
             impl = ck.run_impl(binary, [c.line for c in cases], jobs=16)
             model = ck.run_model_terms(["Camera"], [c.term for c in cases], per_eval=400)
             ck.compare(cases, impl, model, predicate, nontrivial, family=family)
-            for c, o in zip(cases, impl):
-                rs = parse(o, len(c.meta["calls"])) if o else None
-                for r in rs or []:
-                    kinds[r["res"]] = kinds.get(r["res"], 0) + 1
+            count_kinds(cases, impl)
 
     base = sequences(depth)
-    fspecs = failure_specs(base)
     ck.dist["exhaustive_sessions"] = len(base)
-    ck.dist["exhaustive_single_failure_cases"] = len(fspecs)
     ck.phase("generate")
-    process([(s, ()) for s in base] + fspecs, "exhaustive depth<=%d x single failure" % depth)
-    del fspecs
+    ck.dist["exhaustive_single_failure_cases"] = families(base, "exhaustive depth<=%d x single failure" % depth)
     ck.phase("exhaustive")
     other = []
     if not quick:
@@ -467,13 +507,10 @@ def main():
         d7 = sequences(7)[len(base):]
         deep = [d7[i] for i in sorted({rng.below(len(d7)) for _ in range(70000)})]
         del d7
-        allf = failure_specs(deep)
-        keep = 40000
-        dspecs = [allf[i] for i in sorted({rng.below(len(allf)) for _ in range(keep)})] if len(allf) > keep else allf
         ck.dist["depth7_sessions_sampled"] = len(deep)
-        ck.dist["depth7_failure_cases_sampled"] = len(dspecs)
-        other = [(s, ()) for s in deep] + dspecs
-        del allf
+        ck.dist["depth7_failure_cases_sampled"] = families(deep, "sampled depth 7 x sampled single failure",
+                                                           keep=lambda: rng.chance(1, 12))
+        ck.phase("depth7")
     other += [(c.meta["calls"], tuple(c.meta["plan"])) for c in extra_cases(ck)]
     process(other, "deep / variants / random multi-failure")
     del other
